@@ -32,6 +32,17 @@ THEOREMS = [
     "HedVerif.C08.poundOf_eq",
     "HedVerif.C08.treeHash_unbalanced",
     "HedVerif.C08.fault_pound_unbalanced",
+    "HedVerif.C08.extractDefs_eq",
+    "HedVerif.C08.validateD_eq",
+    "HedVerif.C08.sidecar_defs_total",
+    "HedVerif.C08.extractP_run",
+    "HedVerif.C08.runCands_dict",
+    "HedVerif.C08.defs_extracted_spec",
+    "HedVerif.C08.def_issue_in_extraction",
+    "HedVerif.C08.def_issue_reported",
+    "HedVerif.C08.merge_duplicate_reported",
+    "HedVerif.C08.runCands_issues_nil",
+    "HedVerif.C08.wellformed_defs_ok",
     "HedVerif.C08.braces_iff",
     "HedVerif.C08.wellformed_ok",
     "HedVerif.C08.fault_top_level",
@@ -75,7 +86,13 @@ WANTED = [("SidecarErrors", "BLANK_HED_STRING"), ("SidecarErrors", "WRONG_HED_DA
           ("SidecarErrors", "SIDECAR_NA_USED"), ("SidecarErrors", "SIDECAR_HED_USED"),
           ("ColumnErrors", "INVALID_COLUMN_REF"), ("ColumnErrors", "SELF_COLUMN_REF"),
           ("ColumnErrors", "NESTED_COLUMN_REF"), ("ColumnErrors", "MALFORMED_COLUMN_REF"),
-          ("DefinitionErrors", "BAD_DEFINITION_LOCATION")]
+          ("DefinitionErrors", "BAD_DEFINITION_LOCATION"),
+          # issues of `DefinitionDict.check_for_definitions` (sidecars that declare definitions)
+          ("DefinitionErrors", "WRONG_NUMBER_GROUPS"), ("DefinitionErrors", "NO_DEFINITION_CONTENTS"),
+          ("DefinitionErrors", "WRONG_NUMBER_TAGS"), ("DefinitionErrors", "INVALID_DEFINITION_EXTENSION"),
+          ("DefinitionErrors", "DEF_TAG_IN_DEFINITION"), ("DefinitionErrors", "BAD_PROP_IN_DEFINITION"),
+          ("DefinitionErrors", "WRONG_NUMBER_PLACEHOLDER_TAGS"), ("DefinitionErrors", "PLACEHOLDER_NO_TAKES_VALUE"),
+          ("DefinitionErrors", "DUPLICATE_DEFINITION")]
 REF_REGEX = r"\{([a-z_\-0-9]+)\}"
 
 
@@ -233,6 +250,7 @@ def strip_kind(issues):
     return sorted(([k if k in SIDECAR_KINDS else "", c, s, col, key] for k, c, s, col, key in issues), key=obs_key)
 
 
+DEF_KINDS = set()       # filled by tables(): kinds of `check_for_definitions` / the dictionary merge
 SIDECAR_KINDS = set()   # filled by tables(): internal kinds of the sidecar layer (values of the constants)
 
 
@@ -244,11 +262,25 @@ def tables():
         table[consts[w]] = tab[consts[w]]
         table["attr:" + w[1]] = consts[w]
         SIDECAR_KINDS.add(consts[w])
+        if w[0] == "DefinitionErrors" and w[1] != "BAD_DEFINITION_LOCATION":
+            DEF_KINDS.add(consts[w])
     return table
 
 
-def observe(doc, schema):
-    """Run the real code on one JSON document: ({'raise': cls} | {'ok': issues}, oracle for the model)."""
+_TREE = []
+
+
+def tree_json(h):
+    """children of a HedString in the encoding of the definition model (`c09.Env.tree_json` / `Driver/C09.nodeOf`)"""
+    if not _TREE:
+        from harness.props import c09
+        _TREE.append(object.__new__(c09.Env))
+    return _TREE[0].tree_json(h)
+
+
+def observe(doc, schema, extra=None):
+    """Run the real code on one JSON document: ({'raise': cls} | {'ok': issues, 'dict': the sidecar's own definitions},
+    oracle for the model).  `extra` = an external DefinitionDict passed as `extra_def_dicts`."""
     from hed import Sidecar, HedString
     from hed.validator.sidecar_validator import SidecarValidator
     from hed.models.model_constants import DefTagNames
@@ -258,8 +290,13 @@ def observe(doc, schema):
     out, sc = {}, None
     try:
         sc = Sidecar(io.StringIO(text))
-        issues = sc.validate(schema)
+        issues = sc.validate(schema, extra_def_dicts=extra)
         out["ok"] = strip_kind([canon_issue(i) for i in issues])
+        if sc.def_dict is not None:        # the early exit was not taken: the sidecar's own dictionary exists
+            out["dict"] = []
+            for k, e in sc.def_dict.defs.items():
+                c = str(e.contents) if e.contents is not None else None
+                out["dict"].append([k, e.name, bool(e.takes_value), None if c in (None, "()") else c])
         if not isinstance(issues, list):
             out = {"raise": "not-a-list:" + type(issues).__name__}
     except Exception as e:                                   # the property says: never
@@ -267,15 +304,16 @@ def observe(doc, schema):
     # the same through the validator class directly
     try:
         sc2 = Sidecar(io.StringIO(text))
-        direct = {"ok": strip_kind([canon_issue(i) for i in SidecarValidator(schema).validate(sc2)])}
+        direct = {"ok": strip_kind([canon_issue(i) for i in SidecarValidator(schema).validate(sc2, extra_def_dicts=extra)])}
     except Exception as e:
         direct = {"raise": type(e).__name__, "msg": str(e)[:120]}
     out["direct_same"] = (direct.get("ok") == out.get("ok") and direct.get("raise") == out.get("raise"))
     oracle = {"basic": [[s, v] for s, v in REC["basic"].items()], "full": [[s, v] for s, v in REC["full"].items()],
-              "defs": [], "defissues": [], "defexpand": []}
+              "defs": [], "defissues": [], "defexpand": [], "trees": []}
     dx = set()
     for s in REC["basic"]:
         h = HedString(s, schema)
+        oracle["trees"].append([s, tree_json(h)])
         oracle["defs"].append([s, len(h.find_tags({DefTagNames.DEFINITION_KEY}, recursive=True, include_groups=0))])
         dx.update(def_expand_texts(h))
     oracle["defexpand"] = sorted(dx)
@@ -313,8 +351,11 @@ def enc(j):
     raise TypeError(type(j))
 
 
-def request(doc, oracle):
-    return {"op": "c08.validate", "doc": enc(doc), "fixed": True, **oracle}
+def request(doc, oracle, ext=()):
+    """the definition part (`defs`, `defissues` as recorded) is NOT sent: the model extracts the sidecar's definitions and
+    their issues itself from the entries' trees (`validateD`)"""
+    o = {k: v for k, v in oracle.items() if k not in ("defs", "defissues")}
+    return {"op": "c08.validate", "doc": enc(doc), "fixed": True, "extract": True, "ext": list(ext), **o}
 
 
 # ------------------------------------------------------------------------------------------ universe (i)
@@ -373,6 +414,72 @@ def entry_documents(ctx):
                  {"a": {"HED": {"k": s, "m": "Square"}}, "b": {"HED": "ID/#"}}, {"a": {"HED": {"k": s}}, "b": NA_B},
                  {"defs": DEFS, "a": {"HED": s}, "b": CAT_B}, {"defs": DEFS, "a": {"HED": {"k": s, "m": "Square"}}}]
     return docs
+
+
+# ---- sidecars that declare definitions: (entry, reason it is rejected | None)
+DEF_OK = ["(Definition/Abc, (Red))", "(Definition/Xyz/#, (Label/#))", "(Definition/Solo)", "(Definition/Two, (Red, (Blue, Green)))",
+          "(Definition/Val/#, (Item-count/#, Square))", "(Definition/Abc, (Red)), (Definition/Other, (Blue))"]
+DEF_BAD = [("(Definition/G2, (Red), (Blue))", "WRONG_NUMBER_GROUPS"), ("(Definition/NoC/#)", "NO_DEFINITION_CONTENTS"),
+           ("(Definition/T2, Red, (Blue))", "WRONG_NUMBER_TAGS"), ("(Definition/A/B, (Red))", "INVALID_DEFINITION_EXTENSION"),
+           ("(Definition/A#b, (Red))", "INVALID_DEFINITION_EXTENSION"), ("(Definition/D1, (Def/Abc))", "DEF_TAG_IN_DEFINITION"),
+           ("(Definition/D2, (Red, (Def-expand/Abc, (Red))))", "DEF_TAG_IN_DEFINITION"),
+           ("(Definition/D3, ((Definition/In, (Red))))", "DEF_TAG_IN_DEFINITION"),
+           ("(Definition/U1, (Event-context, (Red)))", "BAD_PROP_IN_DEFINITION"),
+           ("(Definition/P1/#, (Red))", "WRONG_NUMBER_PLACEHOLDER_TAGS"), ("(Definition/P2, (Label/#))", "WRONG_NUMBER_PLACEHOLDER_TAGS"),
+           ("(Definition/P3/#, (Label/#, ID/#))", "WRONG_NUMBER_PLACEHOLDER_TAGS"),
+           ("(Definition/P4/#, (Label/##))", "WRONG_NUMBER_PLACEHOLDER_TAGS"),
+           ("(Definition/P5/#, (Red/#))", "PLACEHOLDER_NO_TAKES_VALUE"),
+           ("(Definition/Dup, (Red)), (Definition/dup, (Blue))", "DUPLICATE_DEFINITION"),
+           ("(Definition/ABC, (Green))", None)]          # a duplicate only next to Abc
+DEF_ODD = ["(Definition/M, (Red)), Blue", "((Definition/N, (Red)))", "(Definition/Q, (Red)", "Definition/Bare", "(Definition/R, (Red)), {b}",
+           "(Definition)", "(Definition/, (Red))", "(Definition/W/#, (Label/#), (ID/#))"]
+DEF_USERS = ["Def/Abc", "Def/Xyz/3", "(Def-expand/Abc, (Red))", "Def/Nope", "Def/abc, Blue", "(Def/Val/4, Circle)", "Def/Xyz"]
+
+
+EXTERNAL_DEFS = ["(Definition/Abc, (Green))", "(Definition/Ext/#, (Label/#))", "(Definition/dup, (Red))"]
+
+
+def definition_documents(ctx):
+    """sidecars with a column of definitions: every entry alone (category, value-like), next to a first definition of the same
+    name, with users of the definitions in another column; pairs / random triples of entries as keys of one column and
+    spread over two columns.  Returns (docs, expectations)."""
+    rng = ctx.rng
+    entries = DEF_OK + [e for e, _ in DEF_BAD] + DEF_ODD
+    reason = dict(DEF_BAD)
+    docs, exp = [], []
+
+    def add(d, e=None):
+        docs.append(d)
+        exp.append(e)
+    users = {"HED": {"u": "Def/Abc, Blue", "v": "Def/Xyz/3", "w": "Green"}}
+    for e in entries:
+        r = reason.get(e)
+        add({"d": {"HED": {"x": e}}}, ("definition-rejected", r, "d") if r else None)
+        add({"d": {"HED": e}})                                        # a value column needs its '#': screened only then
+        add({"d": {"HED": {"x": "(Definition/Abc, (Red))", "y": e}}, "a": users},
+            ("definition-rejected", r, "d", "y") if r else
+            (("definition-rejected", "DUPLICATE_DEFINITION", "d", "y") if e in DEF_OK + ["(Definition/ABC, (Green))"]
+             and "definition/abc," in e.casefold() else None))
+        add({"a": users, "d": {"HED": {"x": e, "z": "Blue"}}})      # definitions mixed with plain entries in one column
+        add({"d": {"HED": {"x": e}}, "e": {"HED": {"k": e}}},        # the same entry again in a later column: all duplicates
+            None)
+    pairs = [(a, b) for a in entries for b in entries] if not ctx.quick() else \
+        [(rng.choice(entries), rng.choice(entries)) for _ in range(250)]
+    for a, b in pairs:
+        add({"d": {"HED": {"x": a, "y": b}}, "a": {"HED": {"u": rng.choice(DEF_USERS), "v": rng.choice(DEF_USERS)}}})
+    for _ in range(150 if ctx.quick() else 3000):
+        ks = rng.sample(["x", "y", "z", "1"], rng.randint(1, 3))
+        d = {"d": {"HED": {k: rng.choice(entries) for k in ks}}}
+        if rng.random() < 0.6:
+            d["e"] = {"HED": {k: rng.choice(entries) for k in rng.sample(["x", "y"], rng.randint(1, 2))}}
+        if rng.random() < 0.7:
+            d["a"] = {"HED": {"u": rng.choice(DEF_USERS), "v": rng.choice(DEF_USERS + ["Red"])}}
+        if rng.random() < 0.3:
+            d["v"] = {"HED": rng.choice(["Label/#", "(Definition/Vc/#, (Label/#))", "Def/Xyz/#"])}
+        items = list(d.items())
+        rng.shuffle(items)
+        add(dict(items))
+    return docs, exp
 
 
 def documents(ctx):
@@ -563,14 +670,15 @@ RAISE_FAMILY = [("two-def-expand-in-group", lambda d, o: o["raise"] == "KeyError
                 ("other", lambda d, o: True)]
 
 
-def check_docs(ctx, docs, schema, table, expect=None):
+def check_docs(ctx, docs, schema, table, expect=None, extra=None):
     """model = implementation on each document; never raises; optional expectation per document:
-    ('clean',) or (fault, kind, column)"""
+    ('clean',) or (fault, kind, column[, key]); `extra` = an external DefinitionDict given to every validation"""
     obs = []
+    ext = sorted(extra.defs) if extra is not None else []
     for d in docs:
-        obs.append(observe(d, schema))
+        obs.append(observe(d, schema, extra))
         ctx.check_time()
-    ans = ctx.model.batch([request(d, o[1]) for d, o in zip(docs, obs)])
+    ans = ctx.model.batch([request(d, o[1], ext) for d, o in zip(docs, obs)])
     for idx, (d, (out, _), a) in enumerate(zip(docs, obs, ans)):
         strings = sum(1 for _ in _walk_strings(d))
         ctx.case(("doc", json.dumps(d)), nontrivial=isinstance(d, dict) and len(d) > 0,
@@ -591,21 +699,31 @@ def check_docs(ctx, docs, schema, table, expect=None):
         ctx.count("early-exit" if a["early"] else "full-run")
         ctx.count("issues:" + (",".join(sorted({i[1] for i in errs})) or ("warnings-only" if out["ok"] else "none")))
         if m != out["ok"]:
-            ctx.disagree("SidecarV.validate = Sidecar.validate", {"doc": d}, m, out["ok"])
-        if expect is not None:
+            ctx.disagree("SidecarV.validate = Sidecar.validate", {"doc": d, "ext": ext}, m, out["ok"])
+        if "dict" in out:
+            # the sidecar's own dictionary, as extracted by the model from the entries' trees
+            if out["dict"] or a.get("dict"):
+                ctx.count("definitions:sidecars-with-accepted-definitions")
+                ctx.count("definitions:accepted", len(out["dict"]))
+            if sorted(map(json.dumps, a.get("dict", []))) != sorted(map(json.dumps, out["dict"])):
+                ctx.disagree("SidecarV.extractDefs = Sidecar.get_def_dict", {"doc": d, "ext": ext}, a.get("dict"), out["dict"])
+            for i in out["ok"]:
+                if i[0] in DEF_KINDS:
+                    ctx.count("definitions:issue:" + i[0] + (":no-context" if i[3] is None else ""))
+        if expect is not None and expect[idx] is not None:
             e = expect[idx]
             if e[0] == "clean":
                 if errs:
                     ctx.violation("well-formed-sidecar-has-no-error", {"doc": d}, {"errors": errs})
             else:
-                fault, kind, col = e
-                kind = table["attr:" + kind]
+                fault, attr, col = e[:3]
+                kind = table["attr:" + attr]
                 code, sev = table[kind]
                 ctx.count("fault:" + fault)
                 hit = [i for i in out["ok"] if i[0] == kind and i[1] == code and i[2] == sev and sev < table["_warning"]
-                       and (col is None or i[3] == col)]
+                       and (col is None or i[3] == col) and (len(e) < 4 or i[4] == e[3])]
                 if not hit:
-                    ctx.violation("fault-flagged-with-its-code:" + fault, {"doc": d, "expect": [fault, kind, col]},
+                    ctx.violation("fault-flagged-with-its-code:" + fault, {"doc": d, "expect": list(e), "ext": ext},
                                   {"expected_code": code, "issues": out["ok"]})
 
 
@@ -766,6 +884,16 @@ def run(ctx):
     docs = corpus + entry_documents(ctx) + documents(ctx)
     for lo in range(0, len(docs), 3000):
         check_docs(ctx, docs[lo:lo + 3000], schema, table)
+    # sidecars that declare definitions: extraction, dictionary and issues computed by the model
+    ddocs, dexp = definition_documents(ctx)
+    for lo in range(0, len(ddocs), 3000):
+        check_docs(ctx, ddocs[lo:lo + 3000], schema, table, dexp[lo:lo + 3000])
+    # ... and merged with an external dictionary that defines some of the same names
+    from hed.models import DefinitionDict
+    extra = DefinitionDict(EXTERNAL_DEFS, schema)
+    sub = ddocs[::3] if ctx.quick() else ddocs
+    check_docs(ctx, sub, schema, table, None, extra=extra)
+    ctx.extra["definition_sidecars"] = len(ddocs) + len(sub)
     nbase = 150 if ctx.quick() else 1500
     gdocs, expect = [], []
     for _ in range(nbase):
@@ -804,7 +932,11 @@ def replay(ctx, rec):
         exp = None
         if "expect" in case:
             exp = [tuple(case["expect"])]
-        check_docs(ctx, [case["doc"]], schema, table, exp)
+        extra = None
+        if case.get("ext"):
+            from hed.models import DefinitionDict
+            extra = DefinitionDict(EXTERNAL_DEFS, schema)
+        check_docs(ctx, [case["doc"]], schema, table, exp, extra=extra)
         out, _ = observe(case["doc"], schema)
         print("replayed", json.dumps(case["doc"])[:300], "->", json.dumps(out)[:400])
     else:
